@@ -55,6 +55,14 @@ class JSONField(ABC):
         inst._set_fields(**kwargs)
         return inst
 
+    def _check_field(self, k):
+        """
+        A field is an attribute the constructor defined on the value; methods and
+        constants of the class are not fields. Throws AttributeError otherwise.
+        """
+        if k not in self.__dict__:
+            raise AttributeError(k)
+
     @abstractmethod
     def _set_fields(self, forgiving=False, **kwargs):
         """
@@ -152,12 +160,12 @@ class Capacities(JSONField):
         :return: self to support call chaining
         """
         for k, v in kwargs.items():
-            if v is not None:
-                assert v >= 0
-                assert isinstance(v, int)
             try:
                 # will toss an exception if field is not defined
-                self.__getattribute__(k)
+                self._check_field(k)
+                if v is not None:
+                    assert v >= 0
+                    assert isinstance(v, int)
                 self.__setattr__(k, v)
             except AttributeError:
                 report = f"Unable to set field {k} of capacity, no such field available "\
@@ -305,11 +313,11 @@ class CapacityHints(JSONField):
         :return: self to support call chaining
         """
         for k, v in kwargs.items():
-            assert v is not None  # could be strings
-            assert isinstance(v, str)
             try:
                 # will toss an exception if field is not defined
-                self.__getattribute__(k)
+                self._check_field(k)
+                assert v is not None  # could be strings
+                assert isinstance(v, str)
                 self.__setattr__(k, v)
             except AttributeError:
                 report = f"Unable to set field {k} of capacity hints, no such field available"
@@ -418,11 +426,11 @@ class Labels(JSONField):
         :return: self to support call chaining
         """
         for k, v in kwargs.items():
-            assert v is not None  # could be strings or lists of strings
-            assert isinstance(v, str) or isinstance(v, list)
             try:
                 # will toss an exception if field is not defined
-                self.__getattribute__(k)
+                self._check_field(k)
+                assert v is not None  # could be strings or lists of strings
+                assert isinstance(v, str) or isinstance(v, list)
                 if self.VALIDATORS.get(k, None) is not None:
                     if isinstance(v, list):
                         for i in v:
@@ -511,11 +519,11 @@ class ReservationInfo(JSONField):
         :return: self to support call chaining
         """
         for k, v in kwargs.items():
-            assert v is not None  # could be strings or lists of strings
-            assert isinstance(v, str) or isinstance(v, list)
             try:
                 # will toss an exception if field is not defined
-                self.__getattribute__(k)
+                self._check_field(k)
+                assert v is not None  # could be strings or lists of strings
+                assert isinstance(v, str) or isinstance(v, list)
                 self.__setattr__(k, v)
             except AttributeError:
                 report = f"Unable to set field {k} of reservation info, no such field "\
@@ -547,11 +555,11 @@ class StructuralInfo(JSONField):
         :return:
         """
         for k, v in kwargs.items():
-            assert v is not None  # could be strings or lists of strings
-            assert isinstance(v, str) or isinstance(v, list)
             try:
                 # will toss an exception if field is not defined
-                self.__getattribute__(k)
+                self._check_field(k)
+                assert v is not None  # could be strings or lists of strings
+                assert isinstance(v, str) or isinstance(v, list)
                 self.__setattr__(k, v)
             except AttributeError:
                 report = f"Unable to set field {k} of structural info, no such field available"
@@ -580,11 +588,11 @@ class Location(JSONField):
         :return:
         """
         for k, v in kwargs.items():
-            assert v is not None
-            assert isinstance(v, str) or isinstance(v, float)
             try:
                 # will throw exception if field is not defined
-                self.__getattribute__(k)
+                self._check_field(k)
+                assert v is not None
+                assert isinstance(v, str) or isinstance(v, float)
                 self.__setattr__(k, v)
             except AttributeError:
                 report = f"Unable to set field {k} of location, no such field available"
@@ -636,11 +644,11 @@ class Flags(JSONField):
 
     def _set_fields(self, forgiving=False, **kwargs):
         for k, v in kwargs.items():
-            assert v is not None
-            assert isinstance(v, bool)
             try:
                 # will throw exception if field is not defined
-                self.__getattribute__(k)
+                self._check_field(k)
+                assert v is not None
+                assert isinstance(v, bool)
                 self.__setattr__(k, v)
             except AttributeError:
                 report = f"Unable to set field {k} of flags, no such field available"
